@@ -40,11 +40,21 @@ def run(ctx):
                                 "stopping": {"maximum_iterations": iters}, "observe_iterations": False,
                                 "record_rng": True}
                         cells.append(((m, s, a, mode, rep, hs), spec, hs))
+    # the module under test inside a package with sibling modules holding constants
+    pk_cells = []
+    for a in (("RANDOM", "DYNAMOSA") if quick else ("RANDOM", "DYNAMOSA", "MIO", "WHOLE_SUITE")):
+        for rep, hs in enumerate(hashseeds):
+            spec = {"module": "strings", "package": True, "algorithm": a, "seed": seeds[0], "assertions": "NONE",
+                    "stopping": {"maximum_iterations": iters + 4}, "observe_iterations": False, "record_rng": True}
+            pk_cells.append(((("pkg:strings"), seeds[0], a, "NONE", rep, hs), spec, hs))
+    cells += pk_cells
     results = grid.run_grid(cells, workers=ctx.workers)
-    for m in modules:
-        for s in seeds:
-            for a in algs:
-                for mode in modes:
+    combos = [(m, s, a, mode) for m in modules for s in seeds for a in algs for mode in modes]
+    combos += sorted({k[:4] for k, _spec, _hs in pk_cells})
+    for (m, s, a, mode) in combos:
+        if True:
+            if True:
+                if True:
                     ref = results[(m, s, a, mode, 0, hashseeds[0])]
                     for rep, hs in enumerate(hashseeds):
                         res = results[(m, s, a, mode, rep, hs)]
